@@ -6,6 +6,8 @@ import (
 	"fmt"
 	"math/rand"
 	"sort"
+	"sync/atomic"
+	"time"
 
 	"github.com/btcsuite/btcd/blockchain"
 	"github.com/btcsuite/btcd/chainhash/v2"
@@ -29,6 +31,7 @@ type Op struct {
 	Obs   string `json:"obs,omitempty"` // Gallina term of the observation
 	WF    bool   `json:"wf"`            // generated as a well-formed call
 	Panic string `json:"panic,omitempty"` // the real code panicked in this call
+	Race  string `json:"race,omitempty"`  // a reader racing with this call saw a state no history has
 }
 
 type History struct {
@@ -44,7 +47,10 @@ type locatorer interface {
 }
 
 type Env struct {
-	Dir  string
+	// RaceReader starts a by-height reader alongside every block append whose
+	// index transaction is made to fail.
+	RaceReader bool
+	Dir        string
 	DB   *FDB
 	BS   headerfs.BlockHeaderStore
 	FS   headerfs.FilterHeaderStore
@@ -159,8 +165,39 @@ func (e *Env) exec(op *Op) bool {
 			e.DB.Fail = true
 		}
 		e.arm(e.BF, op.Fault, op.K)
+		// A reader racing with an append whose index transaction fails
+		// must never be handed a header of that append: no state before
+		// or after the call holds it (the readers take the read lock).
+		var sawUncommitted atomic.Bool
+		stopR := make(chan struct{})
+		doneR := make(chan struct{})
+		if e.RaceReader && len(hdrs) > 0 && op.WF && op.Fault == "db" {
+			e.DB.FailDelay = 300 * time.Microsecond
+			first := hdrs[0].Height
+			go func() {
+				defer close(doneR)
+				for {
+					select {
+					case <-stopR:
+						return
+					default:
+					}
+					if h, err := e.BS.FetchHeaderByHeight(first); err == nil && h.BlockHash() == hdrs[0].BlockHeader.BlockHash() {
+						sawUncommitted.Store(true)
+					}
+				}
+			}()
+		} else {
+			close(doneR)
+		}
 		err := e.BS.WriteHeaders(hdrs...)
+		close(stopR)
+		<-doneR
+		e.DB.FailDelay = 0
 		e.disarm()
+		if err != nil && sawUncommitted.Load() {
+			op.Race = "a concurrent FetchHeaderByHeight returned a header of an append that then reported failure"
+		}
 		op.Obs = c.App("ORes", c.Bool(err == nil))
 	case "fwrite":
 		hdrs := make([]headerfs.FilterHeader, len(op.Es))
